@@ -21,6 +21,9 @@ RULE = (
     "verdict flips when one endpoint moves by one grid step (grid class), or a decisive free-float case "
     "with a genuine partial overlap."
 )
+TECHNIQUE = 'property-based testing: Fraction reference predicate on a dyadic grid (exact boundary cases) + decisive/borderline free floats + symmetry/monotonicity laws'
+LEVEL_TEXT = "Generated-input search against an exact-arithmetic oracle for intervals_overlap, have_temporal/frequency_overlap and is_in_clip; boundary cases (touching, overlap == threshold, event ending at clip start) are constructed exactly. Exploration: the verdict is 'held on everything generated'."
+LEVEL_NOTE = 'trusts fractions.Fraction and the reference bounds walker (min/max over coordinate leaves); thresholds non-negative, intervals given start<=stop'
 ASSUMPTIONS = [
     "intervals are given as (start, stop) with start <= stop and thresholds are non-negative (the documented domain)",
     "the signed overlap min(stops)-max(starts) is the 'length of the intersection' compared with the threshold; for disjoint intervals it is negative, so they never overlap",
